@@ -232,6 +232,11 @@ PLANS["C20"] = {
     "thorough": [J("native", "native"), J("relda", "relda", 0.2), J("miri", "miri", cases=320, shards=16)],
 }
 
+#   fuzz : coverage-guided campaign (libFuzzer) over the choice tape of the property's generator
+for _p in PLANS:
+    if _p not in ("C06", "C17"):
+        PLANS[_p]["thorough"] = PLANS[_p]["thorough"] + [J("fuzz", "fuzz", seconds=120)]
+
 LEVELS = {p: "exploration" for p in PLANS}
 LEVELS["C12"] = "fault_enumeration"
 LEVELS["C17"] = "translation_validation"
@@ -330,6 +335,143 @@ def run_rvmon_job(prop, tier, seed, job, jidx):
     return results
 
 
+FUZZ_FLAGS = ("-Cpasses=sancov-module -Cllvm-args=-sanitizer-coverage-level=4 -Cllvm-args=-sanitizer-coverage-inline-8bit-counters "
+              "-Cllvm-args=-sanitizer-coverage-pc-table -Cllvm-args=-sanitizer-coverage-trace-compares --cfg fuzzing "
+              "-Cllvm-args=-simplifycfg-branch-fold-threshold=0 -Cdebug-assertions -Ccodegen-units=1")
+
+
+def build_fuzz():
+    """libFuzzer binary of harness/fuzz (coverage instrumentation, debug assertions on, no sanitizer:
+    memory safety is decided by the Miri / ASan jobs). Returns the path of the binary."""
+    hdir = crate_dir("harness")
+    fdir = os.path.join(TARGET, "crates", "harness-fuzz")
+    os.makedirs(fdir, exist_ok=True)
+    src = os.path.join(VERIF, "harness", "fuzz")
+    manifest = open(os.path.join(src, "Cargo.toml")).read().replace('path = ".."', f'path = "{hdir}"')
+    with open(os.path.join(fdir, "Cargo.toml"), "w") as f:
+        f.write(manifest)
+    shutil.copy(os.path.join(src, "Cargo.lock"), os.path.join(fdir, "Cargo.lock"))
+    link = os.path.join(fdir, "fuzz_targets")
+    if not os.path.lexists(link):
+        os.symlink(os.path.join(src, "fuzz_targets"), link)
+    env = base_env()
+    tdir = os.path.join(TARGET, "fuzz")
+    env["CARGO_TARGET_DIR"] = tdir
+    env["RUSTFLAGS"] = f"{FUZZ_FLAGS} {NIGHTLY_FLAGS}"
+    cmd = ["cargo", "+nightly", "build", "--offline", "--release", "--target", "x86_64-unknown-linux-gnu", "--bin", "prop"]
+    code, path, dt = run_logged(cmd, "build-fuzz.log", env=env, cwd=fdir)
+    if code != 0:
+        raise Inconclusive(f"build of the fuzz target failed, see {path}")
+    return os.path.join(tdir, "x86_64-unknown-linux-gnu", "release", "prop")
+
+
+def run_fuzz_job(prop, tier, seed, job, jidx):
+    """Coverage-guided campaign: libFuzzer mutates the choice tape of the property's own generator,
+    the property's own monitor judges every execution (harness/src/fuzz.rs)."""
+    binary = build_fuzz()
+    native = build_rvmon("native")
+    label = job["label"]
+    seconds = int(os.environ.get("VERIF_FUZZ_SECONDS", job.get("seconds", 120)))
+    work = os.path.join(TARGET, "fuzz-work", prop)
+    out = os.path.join(work, "out")
+    art = os.path.join(work, "artifacts")
+    corpus = os.path.join(TARGET, "fuzz-corpus", prop)
+    shutil.rmtree(out, ignore_errors=True)
+    shutil.rmtree(art, ignore_errors=True)
+    for d in (out, art, corpus):
+        os.makedirs(d, exist_ok=True)
+    # committed starting corpus (inputs only; they are re-executed and re-judged like any other)
+    seed_corpus = os.path.join(VERIF, "fuzz_corpus", prop)
+    if os.path.isdir(seed_corpus):
+        for f in os.listdir(seed_corpus):
+            dst = os.path.join(corpus, f)
+            if not os.path.exists(dst):
+                shutil.copy(os.path.join(seed_corpus, f), dst)
+    env = base_env()
+    env["RVMON_FUZZ_PROP"] = prop
+    env["RVMON_FUZZ_OUT"] = out
+    cmd = [binary, corpus, f"-fork={JOBS}", f"-max_total_time={seconds}", "-timeout=120", "-rss_limit_mb=4096", "-len_control=0", "-max_len=4096",
+           "-ignore_crashes=1", "-ignore_timeouts=1", "-ignore_ooms=1", f"-artifact_prefix={art}/", f"-seed={seed * 1009 + jidx}"]
+    code, logp, dt = run_logged(cmd, f"{prop}-{label}.log", env=env, cwd=work, timeout=seconds + 1800)
+    j = dict(label=label, code=0 if code == 0 else code, log=logp, wall_s=dt, cmd=" ".join(["prop"] + cmd[1:]))
+    # observations of the monitors, per fuzzing process
+    merged = dict(evaluations=0, cases=0, distinct=0, distinct_nontrivial=0, counters={}, maxima={}, sets={}, samples=[], inconclusive={}, notes=[], violations=[], inconclusive_reasons=[])
+    execs = 0
+    for f in glob.glob(os.path.join(out, "part-*.json")):
+        pj = load_part(f)
+        if not pj:
+            continue
+        execs += pj.get("fuzz_execs", 0)
+        for k in ("evaluations", "cases", "distinct", "distinct_nontrivial"):
+            merged[k] += pj.get(k, 0)
+        for k, v in pj.get("counters", {}).items():
+            merged["counters"][k] = merged["counters"].get(k, 0) + v
+        for k, v in pj.get("maxima", {}).items():
+            merged["maxima"][k] = max(merged["maxima"].get(k, 0), v)
+        for k, v in pj.get("inconclusive", {}).items():
+            merged["inconclusive"][k] = merged["inconclusive"].get(k, 0) + v
+        for smp in pj.get("samples", []):
+            if len(merged["samples"]) < 2:
+                merged["samples"].append(smp)
+    merged["notes"].append("fuzz job: 'distinct' counts are summed over fuzzing processes (a case reached by two processes is counted twice)")
+    # violations the monitors recorded (ordinary replay files)
+    os.makedirs(os.path.join(REPLAY, prop), exist_ok=True)
+    for f in sorted(glob.glob(os.path.join(out, "viol-*.json"))):
+        v = load_part(f) or {}
+        rp = os.path.join(REPLAY, prop, "fuzz-" + os.path.basename(f)[5:])
+        shutil.copy(f, rp)
+        merged["violations"].append(dict(kind=v.get("kind", "?"), detail=v.get("detail", ""), replay=rp))
+    # inputs that killed or stalled a fuzzing process: judged again by the native binary, alone
+    stats = dict(crash_artifacts=0, timeout_artifacts=0, oom_artifacts=0, artifacts_reproduced=0)
+    for f in sorted(glob.glob(os.path.join(art, "*"))):
+        base = os.path.basename(f)
+        kindname = base.split("-")[0]
+        if kindname + "_artifacts" in stats:
+            stats[kindname + "_artifacts"] += 1
+        if stats["artifacts_reproduced"] >= 12:
+            continue
+        rp = os.path.join(REPLAY, prop, f"fuzz-tape-{base}")
+        shutil.copy(f, rp)
+        try:
+            p = subprocess.run([native, prop, "--tape", rp], stdout=subprocess.PIPE, stderr=subprocess.STDOUT, env=base_env(), timeout=600, text=True, errors="replace")
+            c2, txt = p.returncode, p.stdout
+        except subprocess.TimeoutExpired:
+            c2, txt = -999, "native re-run exceeded 600 s"
+        if c2 == 0:
+            continue  # slow or out of memory only under instrumentation
+        stats["artifacts_reproduced"] += 1
+        if c2 == 1:
+            kinds = re.findall(r"violated: ([^:]+):", txt)
+            merged["violations"].append(dict(kind=(kinds[0] if kinds else "violation on a fuzzer artifact"), detail=f"`rvmon {prop} --tape {rp}`", replay=rp))
+        elif c2 == 2:
+            merged["inconclusive_reasons"].append(f"fuzzer artifact {base} is inconclusive when re-run natively")
+        else:
+            merged["violations"].append(dict(kind=f"the process is killed by one case (exit {c2})", detail=f"`rvmon {prop} --tape {rp}`: {txt[-300:]}", replay=rp))
+    # what libFuzzer reports about the exploration
+    cov = ft = corp = 0
+    try:
+        for line in open(logp, errors="replace"):
+            m = re.search(r"cov: (\d+) ft: (\d+) corp: (\d+)", line)
+            if m:
+                cov, ft, corp = max(cov, int(m.group(1))), max(ft, int(m.group(2))), max(corp, int(m.group(3)))
+    except OSError:
+        pass
+    stats.update(executions=execs, seconds=seconds, processes=JOBS, coverage_edges=cov, coverage_features=ft, corpus_inputs=corp, corpus_files=len(os.listdir(corpus)))
+    merged["counters"]["fuzz:executions"] = execs
+    merged["maxima"]["fuzz:coverage-edges"] = cov
+    merged["maxima"]["fuzz:coverage-features"] = ft
+    merged["maxima"]["fuzz:corpus-inputs"] = corp
+    part = part_path(prop, label)
+    merged["fuzz"] = stats
+    with open(part, "w") as f:
+        json.dump(merged, f)
+    j["part"] = part
+    j["fuzz"] = stats
+    if execs == 0:
+        j["part"] = None
+    return [j]
+
+
 def classify_abort(prop, tier, binary, env, inflight, label, code):
     """Returns a list of violation dicts for in-flight cases that kill the process on their own."""
     out = []
@@ -372,7 +514,10 @@ def run_property(prop, tier, seed):
     os.makedirs(REPLAY, exist_ok=True)
     res = dict(parts=[], jobs=[], violations=[], inconclusive=[], extra={})
     plan = PLANS[prop][tier]
+    only = os.environ.get("VERIF_ONLY_JOBS")  # development aid: run a subset of the plan (by label)
     for jidx, job in enumerate(plan):
+        if only and job["label"] not in only.split(","):
+            continue
         try:
             if job["kind"] == "digest":
                 import c06
@@ -382,7 +527,10 @@ def run_property(prop, tier, seed):
                 import c17
                 c17.run(prop, tier, seed, job, res)
                 continue
-            jobs = run_rvmon_job(prop, tier, seed, job, jidx)
+            if job["kind"] == "fuzz":
+                jobs = run_fuzz_job(prop, tier, seed, job, jidx)
+            else:
+                jobs = run_rvmon_job(prop, tier, seed, job, jidx)
         except Inconclusive as e:
             res["inconclusive"].append(str(e))
             continue
@@ -398,7 +546,7 @@ def absorb_job(prop, j, res):
     for v in aborts:
         res["violations"].append(v)
     j["sanitizer_reports"] = len(reports)
-    res["jobs"].append({k: j[k] for k in ("label", "code", "wall_s", "cmd", "sanitizer_reports") if k in j} | {"evaluations": (part or {}).get("evaluations", 0)})
+    res["jobs"].append({k: j[k] for k in ("label", "code", "wall_s", "cmd", "sanitizer_reports", "fuzz") if k in j} | {"evaluations": (part or {}).get("evaluations", 0)})
     for kind, line in reports:
         res["violations"].append(dict(kind=kind, detail=line, replay=j["log"]))
     if part is None:
